@@ -78,7 +78,8 @@ pub fn make_ossl_ca_with(rng: &mut Rng, key: &PoolKey, forced: &[(&str, Asn1Type
 	}
 	for _ in 0..if forced.is_empty() { n } else { 0 } {
 		let f = loop {
-			let f = *rng.pick(&FIELDS);
+			// the three attribute types with arcs beyond 64 bits are refused at import: keep them rare
+			let f = if rng.chance(9, 10) { *rng.pick(&FIELDS[..8]) } else { *rng.pick(&FIELDS[8..]) };
 			if repeated || !used.contains(&f) {
 				break f;
 			}
@@ -305,7 +306,7 @@ pub fn check_chain_via(
 		Ok(v) => v,
 		Err(_) => match lenient_subject_and_ski(trusted_der) {
 			Some(v) => v,
-			None => return ctx.note(format!("issuer certificate not decodable by derx in {}", tag)),
+			None => return ctx.inconclusive(&format!("issuer certificate not decodable by the oracle in {}", tag)),
 		},
 	};
 	let lv = match x509::parse_certificate(leaf.der()) {
@@ -393,8 +394,8 @@ fn known_to_webpki(oid: &[u64]) -> bool {
 }
 
 /// OpenSSL-made certificates can contain things derx is too strict for; take what C03 needs
-fn lenient_subject_and_ski(_der: &[u8]) -> Option<CertView> {
-	None
+fn lenient_subject_and_ski(der: &[u8]) -> Option<CertView> {
+	x509::parse_certificate_foreign(der).ok()
 }
 
 pub struct Env<'a> {
